@@ -553,6 +553,34 @@ def coerceArgumentValues (reg : Reg) (fuel : Nat) (vars : List (String × PV)) (
         | some pv => .ok ((d.pyName, pv) :: r)
         | none => .ok r
 
+/-! ### enough fuel: the fuel-free functions -/
+
+def fieldsWidth : List InField → Nat
+  | [] => 0
+  | f :: fs => max f.type.size (fieldsWidth fs)
+
+def typesWidth : List (String × NamedT) → Nat
+  | [] => 0
+  | p :: r =>
+    match p.2 with
+    | .input fs => max (fieldsWidth fs) (typesWidth r)
+    | _ => typesWidth r
+
+/-- "depth" of the registry: the largest number of wrappers + 1 of any input field's type -/
+def Reg.width (r : Reg) : Nat := typesWidth r.types
+
+/-- a recursion budget that always suffices: size of the position's type + (registry width + 1) × size of the value.
+    (Every recursive call either descends into the value — and then restarts at a field type, at most `width` large —
+    or keeps the value and peels one list wrapper off the type.) -/
+def fuelFor (reg : Reg) (ty : Ty) (valueSize : Nat) : Nat := ty.size + (reg.width + 1) * valueSize
+
+/-- `coerce_value`, fuel-free -/
+noncomputable def coerceValueT (reg : Reg) (ty : Ty) (v : JV) : R := coerceValue reg (fuelFor reg ty (sizeOf v)) ty v
+
+/-- `value_from_ast`, fuel-free -/
+noncomputable def valueFromAstT (reg : Reg) (vars : Option (List (String × PV))) (ty : Ty) (l : Lit) : R :=
+  valueFromAst reg vars (fuelFor reg ty (sizeOf l)) ty l
+
 /-! ### the validator's condition on variable usages (validation/rules: VariablesInAllowedPosition, Schema.is_subtype) -/
 
 /-- `Schema.is_subtype(type_, super_type)` on input types (no abstract types among them) -/
